@@ -534,6 +534,18 @@ def inventory_rules(run, db):
         run.check(db.has_func(a) and db.has_func(b), 'C06.inventory', b, 'pair', 'forward/companion pair present', 'forward or companion missing: %s / %s' % (a, b), '')
 
 
+def cache_rules(run, db):
+    """Adjoint bases that are memoised must be keyed by everything that determines the forward bases they are formed from."""
+    from .purity import memo_completeness
+    res = memo_completeness(db, ['prysm.fttools', 'prysm.propagation', 'prysm.x.optym.operators', 'prysm.x.dm'])
+    if not res:
+        raise AnalysisError('no dict memo found in the transform executors')
+    for fi, st, memo, missing in res:
+        run.check(not missing, 'C06.cache', fi.qual, 'memo %s' % memo, 'memo %s is keyed by every input its fill block reads' % memo,
+                  'the memo %s is filled from %s, which its key does not contain: a companion called with a geometry that differs only there re-uses the adjoint bases of the EARLIER geometry '
+                  '(e.g. the unshifted bases for a shifted transform), so it is no longer the adjoint of its forward routine' % (memo, missing), fi.loc(st))
+
+
 def check(run, db, tier):
     run.trust('KERNEL/NORM engines; a matrix triple product L @ x @ R has adjoint L^H @ g @ R^H; the adjoint of a composition is the reversed composition of adjoints',
               'symbolic differentiation D_x of NORM for exp/log/arctan closed forms; slice-store stencils with affine bounds (SpatialGradient2D)')
@@ -552,6 +564,9 @@ def check(run, db, tier):
     run.rule('C06.cost', 'cost gradients equal the symbolic derivative of the cost')
     run.rule('C06.sum', 'modal sum contracts the mode axis, its companion the spatial axes')
     run.rule('C06.fd', 'finite-difference companions are the index-set transposes of the forward stencils, bounds from the differentiated axis')
+    run.rule('C06.cache', 'memoised (adjoint) bases are keyed by every input of the forward bases: module-level and instance-attribute dict memos, tuple keys component-wise')
+    run.group(cache_rules, run, db)
+    run.require_instances('C06.cache', 2)
     run.rule('C06.dm', 'DM companion runs the forward stages in reverse with corresponding geometry; pad/crop guards compare one axis')
     for fn in (inventory_rules, matrix_rules, fixed_rules, chain_rules, babinet_bp_rules, wrapper_rules, const_rules, activation_rules, cost_rules, sum_rules, fd_rules, dm_rules):
         run.group(fn, run, db)
